@@ -47,6 +47,17 @@ CHECKS = {
         "one-sided bounds. PKCS#11 error values come from miekg/pkcs11 constants, no real HSM.",
    technique="TLA+ specs + TLC exhaustive; spec behaviours replayed on the real retry client, cache and RPC handler",
    engine="workerretry"),
+ "C04": dict(cat="model_checking", design="§4 C04",
+   text="spec/Authz.tla: request pipeline (realip, client-certificate auth, one-hop alias resolution, role check, token touch, "
+        "listing) against a reference entitlement predicate defined independently of the pipeline; TLC exhausts configurations x "
+        "requests for OnlyEntitled, RefusedOtherwise, EntitledServed, ListingExact, UntrustedHeadersInert, AddrIsTrue; 7 negative "
+        "controls. Binding: for each generated configuration (3 key entries over 18 shapes x client roles, seeded sample in quick) "
+        "real YAML -> config.ReadFile -> server.New -> all 1440 requests through Handler(); status, calls reaching the fake token, "
+        "listing and audited client.ip compared with the specification's outcome.",
+   note="Trusted: httptest request construction (TLS state, RemoteAddr, headers), fake token registered via token.Openers as the "
+        "observation of 'token touched'. Policy/OPA mode and bearer tokens are not covered.",
+   technique="TLA+ spec + TLC exhaustive; per-configuration expected outcomes replayed on the real server handler",
+   engine="authz"),
 }
 
 NOT_YET = {}
